@@ -352,6 +352,61 @@ T = {
     needs="one MsgExecuteOrders carrying an order that fails after moving funds, followed by one that succeeds: the failed attempt's writes are flushed",
     caught_by="C20.escrow_holds in hist mode",
     history="caught at first run"),
+ "C03-4": dict(
+    change="x/amm/keeper/update_pool_for_swap.go UpdatePoolForSwap: the weight-recovery bonus is sent from the pool's account instead of the rebalance treasury",
+    needs="an oracle pool whose weights sit beyond the threshold from their targets, a funded treasury, a swap in the weight-improving direction",
+    caught_by="C03.oracle_pool_pays_le_in (driver C03H) in scenario c03-bonus-from-treasury and amm-focused histories; also C01.reserve_eq_held",
+    history="MISSED at first by C03 (its check drove the pool arithmetic only, not the settlement): clause oracle_pool_pays_le_in on real blocks (over a block's end-block "
+            "transfers an oracle pool's account never pays out more value than it takes in at the prices in force) and the scenario added; caught since"),
+ "C04-4": dict(
+    change="x/amm/keeper/msg_server_swap_by_denom.go SwapByDenom: the user's MinAmount is shadowed by := and the inner exact-in message carries a minimum of 0",
+    needs="MsgSwapByDenom (exact-in variant) with a non-trivial MinAmount that the pool cannot honour at execution (price moved within the block, or unachievable at delivery)",
+    caught_by="C04.exact_in_min_out in mode c04",
+    history="MISSED at first (the request blocks had no by-denom messages); a third of the single-hop exact-in requests now go through MsgSwapByDenom with the same stated minimum; caught since"),
+ "C05-4": dict(
+    change="x/accountedpool/keeper/hooks_amm.go UpdateAccountedPoolOnAmmChange: the stored non-amm balance is applied only when positive",
+    needs="an oracle pool with an open long (negative non-amm balance), any amm operation, then a single-asset exit priced on the inflated accounted balance",
+    caught_by="C05.pricing_base_is_true_balance (driver C05H) in hist mode; C11's check reports it too",
+    history="caught at first run"),
+ "C07-4": dict(
+    change="x/stablestake/keeper/msg_server_update_params.go: a non-zero TotalValue in the proposal is stored instead of being overwritten with the live one",
+    needs="a governance MsgUpdateParams drafted from the parameters as they were some operations ago, executed after the vault moved",
+    caught_by="C07.others_unharmed in mode c07",
+    history="MISSED at first (no governance parameter updates in the op sequences); op govparams added (the parameters as drafted some operations earlier are re-sent), with the "
+            "clause that it must not lower the redemption rate; caught since"),
+ "C10-4": dict(
+    change="x/perpetual/keeper/mtp_health.go GetMTPHealth: for shorts only the principal, not principal + unpaid interest, is converted",
+    needs="a short left alone long enough to carry unsettled interest, price moved so that health without interest is above the safety factor and with interest below, a consolidating re-open by the owner",
+    caught_by="C10.open_healthy in mode c10 (health as the force-close path computes it)",
+    history="MISSED at first (re-opens were judged on the health the keeper stored, all blocks were five seconds apart); re-opens are now also judged on the health computed the way a third "
+            "party's close request computes it, long gaps and directed dust top-ups after them added; caught since"),
+ "C11-4": dict(
+    change="x/perpetual/keeper/process_mtp.go CheckAndLiquidateUnhealthyPosition: the accounted-pool refresh runs only when interest was paid",
+    needs="a pool with long and short open interest, a healthy position named in a close-positions request when its interest truncates to zero but its funding does not",
+    caught_by="C11.total_eq and C11.nonamm_eq in stored history corpus/C11-funding-only-settlement (found at seed 18 of the perp-focused histories)",
+    history="MISSED at first by the quick run (the state is rare); a perp-focused history was found and stored; caught since"),
+ "C14-4": dict(
+    change="x/commitment/keeper/msg_server_vest.go ProcessTokenVesting: entries whose schedule has elapsed are dropped before the new entry is appended",
+    needs="a vesting whose schedule elapsed with unclaimed tokens, then a new vest before the claim",
+    caught_by="C14.conservation and C14.complete in mode c14",
+    history="caught at first run"),
+ "C16-4": dict(
+    change="x/oracle/keeper/msg_server_proposals.go RemovePriceFeeders: the record is switched off instead of deleted",
+    needs="governance removes a feeder, the removed account switches itself back on with MsgSetPriceFeeder (which only requires a record), then feeds",
+    caught_by="C16.feeder_gate in mode c16",
+    history="caught at first run only as a broken correspondence WITHOUT a failing input (the reference registry followed the implementation's answer to the self-service toggle, "
+            "and no sequence fed after a revival); the reference registry now follows what the account was entitled to do and removed accounts try to revive and feed; caught with a failing input since"),
+ "C17-4": dict(
+    change="x/tradeshield/keeper/msg_server_spot_order.go CancelSpotOrder: the ownership test moved into the refund block, which is skipped when the escrow is empty",
+    needs="a pending spot order with order amount zero (valid), cancelled by a stranger through MsgCancelSpotOrder or MsgCancelSpotOrders",
+    caught_by="C17.owner_only in mode c17 (probes on a zero-escrow order)",
+    history="MISSED at first (owner-scoped messages were probed on ordinary objects only); probes on a degenerate object (an order that escrows nothing) added; caught since"),
+ "C19-4": dict(
+    change="x/tradeshield: MsgExecuteOrders de-duplicates its id lists through a map and executes in the map's iteration order",
+    needs="one MsgExecuteOrders naming two or more orders that all execute and interact (same pool), replicas whose map iteration starts elsewhere",
+    caught_by="C19.replicas_agree in mode c19, and the proof obligation C19.ranges_as_expected (regenerated table of every range over a map)",
+    history="MISSED at first (execute messages rarely named two executable orders); executable order pairs and execute-all messages added, and the table of map ranges is now "
+            "regenerated and compared with a classified expectation; caught since"),
 }
 
 root = os.path.join(os.path.dirname(os.path.dirname(os.path.abspath(__file__))), "seeded")
